@@ -42,7 +42,10 @@ Record R (s : st) (p : spec) : Prop := mkR {
   R_seq : forall e, In e (saves (s_db s)) -> (fst e <= c_seq s)%N;
   R_ctx : ctxrel s (c_ctx s) (p_ctx p);
   R_subject : forall k, k < length (txns s) -> subject k s = existsb (Nat.eqb k) (p_ctx p);
-  R_out : forallb snd (s_out s) = true
+  R_out : forallb snd (s_out s) = true;
+  R_nb : c_in_begin s = false;
+  R_bfail : c_beginfail s = p_beginfail p;
+  R_rbfail : c_rbfail s = p_rbfail p
 }.
 
 (* ---- states that differ only in is_active flags, the installed transactions, the database and
@@ -56,7 +59,10 @@ Record same_but (s s' : st) : Prop := mkSB {
   sb_outer : forall k, outer k s' = outer k s;
   sb_ctx : c_ctx s' = c_ctx s;
   sb_seq : c_seq s' = c_seq s;
-  sb_closed : c_closed s' = c_closed s
+  sb_closed : c_closed s' = c_closed s;
+  sb_nb : c_in_begin s' = c_in_begin s;
+  sb_bfail : c_beginfail s' = c_beginfail s;
+  sb_rbfail : c_rbfail s' = c_rbfail s
 }.
 
 Lemma sb_refl : forall s, same_but s s. Proof. intros; constructor; auto. Qed.
@@ -216,6 +222,7 @@ Qed.
 (* re-establishing R after a step that creates no object and leaves the with-block stack alone *)
 Lemma R_after : forall s s' p p', R s p -> same_but s s' ->
   p_kinds p' = p_kinds p -> p_ctx p' = p_ctx p -> p_closed p' = p_closed p ->
+  p_beginfail p' = p_beginfail p -> p_rbfail p' = p_rbfail p ->
   (forall k, active k s' = live k p') ->
   (p_closed p' = true -> p_stack p' = []) ->
   committed (s_db s') = p_committed p' -> work (s_db s') = p_cur p' ->
@@ -225,7 +232,7 @@ Lemma R_after : forall s s' p p', R s p -> same_but s s' ->
   forallb snd (s_out s') = true ->
   R s' p'.
 Proof.
-  intros s s' p p' [] SB Hk Hc Hcl Ha Hce Hco Hw Hf Hn Hnn Hs Ho.
+  intros s s' p p' [] SB Hk Hc Hcl Hbf Hrf Ha Hce Hco Hw Hf Hn Hnn Hs Ho.
   pose proof SB as [].
   constructor; auto.
   - unfold p_next in *. congruence.
@@ -234,6 +241,9 @@ Proof.
   - intros e He. rewrite sb_seq0. auto.
   - rewrite Hc. eapply ctxrel_sb; eauto.
   - intros k Hlt. rewrite sb_subject0, Hc. apply R_subject0. lia.
+  - congruence.
+  - congruence.
+  - congruence.
 Qed.
 
 Lemma frames_sb : forall s s' p, frames s p -> same_but s s' -> c_root s' = c_root s ->
@@ -268,17 +278,31 @@ Lemma kind_root_app : forall k p b, k < p_next p -> nth k (p_kinds p ++ [b]) fal
 Proof. intros. unfold kind_root. apply app_nth1. auto. Qed.
 
 Tactic Notation "norm" := autorewrite with st;
-  cbn [open_frame p_committed p_cur p_stack p_kinds p_ctx p_closed committed work saves fst snd].
+  cbn [open_frame p_committed p_cur p_stack p_kinds p_ctx p_closed p_beginfail p_rbfail committed work saves fst snd].
 Tactic Notation "norm" "in" hyp(H) := autorewrite with st in H;
-  cbn [open_frame p_committed p_cur p_stack p_kinds p_ctx p_closed committed work saves fst snd] in H.
+  cbn [open_frame p_committed p_cur p_stack p_kinds p_ctx p_closed p_beginfail p_rbfail committed work saves fst snd] in H.
 
-Lemma R_new_root : forall s p, R s p -> c_root s = None -> blocked p = false ->
+Lemma begin_impl_ok : forall s, c_beginfail s = 0%N ->
+  begin_impl s = (Ok, set_in_begin false (add_out (Begin, true) (set_db (s_db s) (set_in_begin true s)))).
+Proof. intros s H. unfold begin_impl, bind, finally, begin_listener, emit. autorewrite with st. rewrite H. reflexivity. Qed.
+
+Lemma begin_impl_fail : forall s, c_beginfail s <> 0%N ->
+  begin_impl s = (Raise ListenerError,
+                  set_in_begin false (if N.eqb (c_beginfail s) 1 then set_beginfail 0%N (set_in_begin true s)
+                                      else set_in_begin true s)).
+Proof.
+  intros s H. unfold begin_impl, bind, finally, begin_listener. autorewrite with st.
+  destruct (c_beginfail s) as [|[q|q|]]; try contradiction; reflexivity.
+Qed.
+
+Lemma R_new_root : forall s p, R s p -> c_root s = None -> blocked p = false -> p_beginfail p = 0%N ->
   exists s', new_root s = (Ok, s') /\ R s' (open_frame true p) /\ c_root s' = Some (length (txns s)).
 Proof.
-  intros s p HR Hr Hb. apply orb_false_elim in Hb. destruct Hb as [Hc Hb].
+  intros s p HR Hr Hb Hbf. apply orb_false_elim in Hb. destruct Hb as [Hc Hb].
   destruct (R_root_none _ _ HR Hr) as [Hst Hn].
   unfold new_root, bind. rewrite (R_ctx_check _ _ HR), Hb, (R_closed _ _ HR), Hc.
-  unfold emit. cbn [exec_cmd]. eexists. split; [reflexivity|]. split; [|norm; reflexivity].
+  rewrite begin_impl_ok by (rewrite (R_bfail _ _ HR); auto).
+  eexists. split; [reflexivity|]. split; [|norm; reflexivity].
   pose proof HR as []. constructor.
   - norm. unfold p_next in *. cbn [p_kinds open_frame]. rewrite app_length. cbn. lia.
   - intros k Hk. norm. unfold kind_root. cbn [p_kinds open_frame]. destruct (Nat.eqb_spec k (length (txns s))).
@@ -306,6 +330,9 @@ Proof.
       pose proof (ctxrel_lt _ _ _ R_ctx0 _ A). lia.
     + apply R_subject0. lia.
   - norm. rewrite forallb_app, R_out0. reflexivity.
+  - norm. reflexivity.
+  - norm. auto.
+  - norm. auto.
 Qed.
 
 Lemma sb_chain_seq : forall s n o fr sv, chain s o fr sv -> chain (set_seq n s) o fr sv.
@@ -329,6 +356,9 @@ Proof.
   - norm. eapply ctxrel_ext; eauto; intros; norm; auto.
   - intros k Hk. norm. norm in Hk. auto.
   - norm. auto.
+  - norm. exact R_nb0.
+  - norm. exact R_bfail0.
+  - norm. exact R_rbfail0.
 Qed.
 
 Lemma ch_cons0 : forall s k n snap fr sv2,
@@ -386,6 +416,9 @@ Proof.
       pose proof (ctxrel_lt _ _ _ R_ctx0 _ A). lia.
     + apply R_subject0. lia.
   - norm. rewrite forallb_app, R_out0. reflexivity.
+  - norm. exact R_nb0.
+  - norm. exact R_bfail0.
+  - norm. exact R_rbfail0.
 Qed.
 
 (* ---- the transactional prologue of execute under R ---- *)
@@ -831,6 +864,9 @@ Proof.
   - norm. eapply ctxrel_ext; eauto; intros; norm; auto.
   - intros k Hk. norm. norm in Hk. auto.
   - norm. auto.
+  - norm. exact R_nb0.
+  - norm. exact R_bfail0.
+  - norm. exact R_rbfail0.
 Qed.
 
 Definition enter_spec (k : nat) (p : spec) : spec :=
@@ -866,6 +902,9 @@ Proof.
     + subst. rewrite subject_set_ctx, subject_set_ctx_t_same by auto. reflexivity.
     + rewrite subject_set_ctx, subject_set_ctx_t_other by auto. cbn. apply R_subject0. auto.
   - norm. auto.
+  - norm. exact R_nb0.
+  - norm. exact R_bfail0.
+  - norm. exact R_rbfail0.
 Qed.
 
 Lemma R_exit_fin : forall s q k l, R s q -> p_ctx q = k :: l ->
@@ -897,6 +936,9 @@ Proof.
     + rewrite subject_set_ctx_t_other by auto. norm. rewrite (R_subject0 j Hj), Hc. cbn.
       rewrite (proj2 (Nat.eqb_neq j k)) by auto. reflexivity.
   - norm. auto.
+  - norm. exact R_nb0.
+  - norm. exact R_bfail0.
+  - norm. exact R_rbfail0.
 Qed.
 
 (* ---- one operation ---- *)
